@@ -4,9 +4,11 @@
 //! records what happened as ndjson; the TLA+ trace specifications under /verif/spec judge it.
 //! One binary per family of properties lives under src/bin/ (cargo discovers them).
 
+pub mod c16;
 pub mod datum;
 pub mod generate;
 pub mod jsontree;
+pub mod sv;
 pub mod term;
 
 use std::collections::HashMap;
